@@ -154,7 +154,9 @@ class C07(Prop):
             if matched == 'mismatch':
                 rd, _ = self.result(mm.describe, str)
                 rg, _ = self.result(mm.get_details, dict)
-                re_, _ = self.result(lambda: str(MismatchError(pv, matcher, mm, verbose)), str)
+                # a fresh mismatch, as in assertThat (LabelledMismatches of the dict matchers describes only once:
+                # it holds a generator)
+                re_, _ = self.result(lambda: str(MismatchError(pv, matcher, matcher.match(pv), verbose)), str)
             else:
                 rd = rg = re_ = 'ok'
         return ['describe', rs, matched, rd, rg, re_]
@@ -220,7 +222,7 @@ class C07(Prop):
                     raise
                 finally:
                     obs['names'] = [parse_name(k) for k in self.getDetails()]
-                    obs['ff'] = bool(self.force_failure)
+                    obs['ff'] = bool(getattr(self, 'force_failure', None))
         res = ExtendedTestResult()
         T('test_it').run(res)
         kinds = [e[0] for e in res._events if e[0].startswith('add')]
